@@ -9,12 +9,13 @@ PROP = "C03"
 SERVICES = os.environ.get("C03_SERVICES", "ftp,smtp,ldap,telnet,redis,memcached,http,tftp").split(",")
 
 
-def conn_addr(c):
-    """address of connection number c (1-based)"""
-    return "10.9.%d.1" % c, 4000 + c
+def conn_addr(c, amode="distinct"):
+    """address of connection number c (1-based); amode "sameport": the clients differ in their IP address only (they all use
+    the same source port, as clients behind different hosts may)"""
+    return "10.9.%d.1" % c, (4000 if amode == "sameport" else 4000 + c)
 
 
-def steps_for(svc, order, scripts_idx, nreq):
+def steps_for(svc, order, scripts_idx, nreq, amode="distinct"):
     """order: list of connection numbers (1-based) from TLC; connection k runs script scripts_idx[k-1].
     Each connection has nreq+2 steps: open, nreq requests, close."""
     spec = P.C03[svc]
@@ -26,7 +27,7 @@ def steps_for(svc, order, scripts_idx, nreq):
         si = scripts_idx[c - 1]
         k = pos.get(c, 0)
         pos[c] = k + 1
-        ip, rport = conn_addr(c)
+        ip, rport = conn_addr(c, amode)
         name = "c%d" % c
         if k == 0:
             if not udp:
@@ -56,7 +57,7 @@ def steps_for(svc, order, scripts_idx, nreq):
     return steps, meta
 
 
-def project(svc, scripts_idx, meta, res):
+def project(svc, scripts_idx, meta, res, amode="distinct"):
     """-> per connection c: {"script": si, "replies": {step: text}, "events": [...]}, stray events, session ids per c"""
     out = {c + 1: {"script": si, "replies": {}, "events": []} for c, si in enumerate(scripts_idx)}
     ip_to_c = {conn_addr(c)[0]: c for c in out}
@@ -76,7 +77,7 @@ def project(svc, scripts_idx, meta, res):
                         v = "sid"
                     if k == "source-ip" and c is not None:
                         v = "CLIENT"
-                    if k == "source-port" and c is not None and v == conn_addr(c)[1]:
+                    if k == "source-port" and c is not None and v == conn_addr(c, amode)[1]:
                         v = "CLIENT-PORT"
                     if k == "ftp.command" and isinstance(v, str):
                         v = re.sub(r' d\d+$', ' dN', v)
@@ -195,19 +196,26 @@ def run(tier, lab):
             for c in range(1, len(hist) + 1):
                 order += [c] * 5
             plan.append((order, hist, 3))
+        plan = [p + ("distinct",) for p in plan]
+        # the same with clients that differ in their IP address only (one source port for all): state keyed by less than the
+        # whole peer address shows here
+        for o in seq2 + rng.sample(o2, min(per_pair, len(o2))):
+            plan.append((o, [0, 1], 3, "sameport"))
+        for o in rng.sample(o3, min(per_triple // 2, len(o3))):
+            plan.append((o, [0, 1, 2], k3[1] - 2, "sameport"))
         scs, info = [], {}
-        for i, (order, sidx, nreq) in enumerate(plan):
-            steps, meta = steps_for(svc, order, sidx, nreq)
+        for i, (order, sidx, nreq, amode) in enumerate(plan):
+            steps, meta = steps_for(svc, order, sidx, nreq, amode)
             scs.append({"id": i, "steps": steps})
-            info[i] = (order, sidx, nreq, meta)
-            distinct.add(json.dumps([svc, order, sidx]))
+            info[i] = (order, sidx, nreq, meta, amode)
+            distinct.add(json.dumps([svc, order, sidx, amode]))
         results = {r["id"]: r for r in run_scenarios(lab, svc, scs)}
 
         def judge(i, res):
-            order, sidx, nreq, meta = info[i]
+            order, sidx, nreq, meta, amode = info[i]
             if res.get("error"):
                 raise lib.Infra("%s scenario %d: %s" % (svc, i, res["error"]))
-            got, stray, sids = project(svc, sidx, meta, res)
+            got, stray, sids = project(svc, sidx, meta, res, amode)
             return diff(svc, solos[nreq], got, stray, sids)
 
         failing = {}
@@ -223,9 +231,9 @@ def run(tier, lab):
                 sigs2 = {s for s, _ in judge(i, res)}
                 for sig, text in failing[i]:
                     if sig in sigs2:
-                        order, sidx, nreq, meta = info[i]
-                        ck.disagree(sig, "%s, schedule %s of scripts %s: %s" % (svc, order, sidx, text),
-                                    {"svc": svc, "order": order, "scripts": sidx, "nreq": nreq})
+                        order, sidx, nreq, meta, amode = info[i]
+                        ck.disagree(sig, "%s, schedule %s of scripts %s%s: %s" % (svc, order, sidx, " (all clients on one source port)" if amode == "sameport" else "", text),
+                                    {"svc": svc, "order": order, "scripts": sidx, "nreq": nreq, "amode": amode})
         ck.cov.setdefault("per_service", {})[svc] = {"scenarios": len(scs), "failing_first_run": len(failing)}
         if svc == SERVICES[0]:
             ck.sample({"svc": svc, "order": plan[5][0], "scripts": plan[5][1],
@@ -246,9 +254,10 @@ def replay(lab, path):
     rp = json.load(open(path))["replay"]
     svc = rp["svc"]
     solo = solo_runs(lab, svc, rp["nreq"])
-    steps, meta = steps_for(svc, rp["order"], rp["scripts"], rp["nreq"])
+    amode = rp.get("amode", "distinct")
+    steps, meta = steps_for(svc, rp["order"], rp["scripts"], rp["nreq"], amode)
     res = run_scenarios(lab, svc, [{"id": 0, "steps": steps}])[0]
-    got, stray, sids = project(svc, rp["scripts"], meta, res)
+    got, stray, sids = project(svc, rp["scripts"], meta, res, amode)
     d = diff(svc, solo, got, stray, sids)
     for sig, text in d:
         print(sig, text)
